@@ -93,6 +93,7 @@ func c03MoveAtomic(r *core.Run) {
 	la := newLockAnalysis(r)
 	cnt := 0
 	n := counter{}
+	send := viaHelpers(r.P, fn.SSA, callTo(fnRedisProcess))
 	la.flow(fn.SSA, lkNone, func(in ssa.Instruction, st int) {
 		what := ""
 		switch {
@@ -100,7 +101,7 @@ func c03MoveAtomic(r *core.Run) {
 			what = "Export"
 		case isIteratorCall("Drop")(in):
 			what = "Drop"
-		case callTo(fnRedisProcess)(in):
+		case send(in):
 			what = "send"
 		}
 		if what == "" {
